@@ -47,6 +47,14 @@ class Sim:
     tensora = None
     sched = None  # engine T installs the active scheduler here; SimLock consults it
     phase_cb = None  # the worker installs its journal's phase writer here
+    rearm_cb = None  # ... and a callable that restarts the per-run watchdog (sweeps call it per sub-run)
+
+
+def rearm_watchdog():
+    cb = SIM.rearm_cb
+    if cb is not None:
+        cb()
+
 
 
 SIM = Sim()
